@@ -86,3 +86,34 @@ def frame_from_knx_total(data, service):
     assert frame.header.total_length == total
     assert 6 <= total <= len(data)
     assert bytes(rest) == bytes(data[total:])
+
+
+# ------------------------------------------------------------------ "having consumed exactly the announced length": the body too
+# frame_from_knx_total fixes what is returned as the rest; this fixes what the body parser is handed. A body parser
+# that is handed more than the announced octets (the start of the next frame of a TCP stream) either fails on a
+# well-formed frame or - for bodies that end with open data such as the cEMI of a tunnelling request - takes the
+# following octets for its own.
+
+from xknx.knxip import RoutingIndication as _RoutingIndication, TunnellingRequest as _TunnellingRequest  # noqa: E402
+from pyvc.api import ghost as _ghost  # noqa: E402
+
+
+def _record_body(self, raw):
+    _ghost("body_octets").append(raw)
+    return len(raw)
+
+
+@lemma("C20", family=[dict(service=0x0420, B=_TunnellingRequest), dict(service=0x0530, B=_RoutingIndication)], params=dict(data=Bytes(max_len=64)), dynamic_params=lambda fixed: dict(), stubs=[(_TunnellingRequest, "from_knx", _record_body), (_RoutingIndication, "from_knx", _record_body)])
+def the_body_parser_is_handed_exactly_the_announced_octets(service, B, data):
+    """KNXIPFrame.from_knx for the two services whose body ends with open data, any octets (also with further
+    frames behind): the body parser gets data[6:total] - not an octet more - and the rest is data[total:]."""
+    if len(data) < 6 or data[2] * 256 + data[3] != service:
+        return
+    try:
+        frame, rest = KNXIPFrame.from_knx(data)
+    except (CouldNotParseKNXIP, IncompleteKNXIPFrame):
+        return
+    total = data[4] * 256 + data[5]
+    seen = _ghost("body_octets")
+    assert len(seen) == 1 and bytes(seen[0]) == bytes(data[6:total])
+    assert bytes(rest) == bytes(data[total:])
